@@ -44,6 +44,7 @@ pub fn chaos_cfg() -> Cfg {
 /// The run + oracle, shared with the structure-aware fuzz target.
 pub fn run_chaos(s: &Streams) -> CaseOut {
     let mut out = CaseOut::new();
+    out.owns_panics = true;
     let mut dch = Ch::new(&s[2]);
     // each case enables a random subset of the hazard sources, so that the rarer ones are
     // not always masked by an earlier, more common error
@@ -148,7 +149,7 @@ pub fn run_chaos(s: &Streams) -> CaseOut {
                 (ri::RiItem::Row(a), RealItem::Row(b)) => {
                     // the prediction of a hazard is only trusted while reference and crate
                     // agree on everything before it
-                    if row_diff(a, b, Projection::INPUTS_EXPECTED).is_some() {
+                    if row_diff(a, b, Projection::ALL).is_some() {
                         out.class("diverged-before-hazard");
                         break;
                     }
@@ -161,6 +162,10 @@ pub fn run_chaos(s: &Streams) -> CaseOut {
                         ri::Hazard::RandomBound(_) => {
                             hazard_seen = true;
                             // an error item or a value, never a panic (checked above)
+                        }
+                        // reading a Z/X answer is an error item by C04 / C14, not by C10's list
+                        ri::Hazard::ZxRead(_) => {
+                            hazard_seen = true;
                         }
                         h => {
                             hazard_seen = true;
